@@ -571,6 +571,26 @@ class Interp:
     # ------------------------------------------------------------------ stores
     def store(self, target, bv, subs, v, st, stmt, op):
         """Store (op '=' or augmented) of value v into base value bv at subscripts."""
+        # A[..., d, d] op= scalar with d = np.arange(k), k a small literal: the k diagonal entries,
+        # desugared into k element stores with literal indices (same as `for i in range(k): A[..., i, i] op= c`)
+        if subs and isinstance(subs[-1], ast.Tuple) and v.kind == "num":
+            elts = subs[-1].elts
+            nms = [e.id for e in elts if isinstance(e, ast.Name)]
+            dup = [x for x in set(nms) if nms.count(x) == 2]
+            dv = st.env.get(dup[0]) if len(dup) == 1 else None
+            if dv is not None and dv.kind == "arr" and isinstance(dv.extra, tuple) and len(dv.extra) == 3 and dv.extra[0] == "arange":
+                lo_, hi_ = dv.extra[1], dv.extra[2]
+                ob_ = st.heap.get(dv.obj) if dv.obj is not None else None
+                try:
+                    small = lo_ is not None and hi_ is not None and sp.sympify(lo_) == 0 and sp.sympify(hi_).is_Integer and 0 < int(hi_) <= 4 and not (ob_ is not None and ob_.stored)
+                except Exception:
+                    small = False
+                if small:
+                    for i_ in range(int(hi_)):
+                        ne = [ast.copy_location(ast.Constant(i_), e) if (isinstance(e, ast.Name) and e.id == dup[0]) else e for e in elts]
+                        nt = ast.copy_location(ast.Tuple(elts=ne, ctx=ast.Load()), subs[-1])
+                        self.store(target, bv, tuple(subs[:-1]) + (nt,), v, st, stmt, op)
+                    return
         dep = v.dep | st.ctrl
         sub_vals = []
         key = None
